@@ -20,6 +20,30 @@ namespace AnySync.Ldiff
 /-- the range arithmetic of the model is the arithmetic regenerated from `hashrange.go` -/
 theorem shape_ok : type_of% ldiffShape_ok := ldiffShape_ok
 
+/-- **what the specification lists mean** (for `(id, head)` lists with distinct ids): `new` = ids
+present only remotely, `rm` = ids present only locally, `ch` = ids on both sides with different
+heads (in the comparing variant: … and the remote head is not greater), `th` = … and the remote
+head is greater (empty in the plain variant). -/
+theorem spec_meaning (my other : List (Nat × Nat)) (hno : (other.map (·.1)).Nodup) (id : Nat) :
+    (∀ g, id ∈ specK g .new my other ↔ (∃ h, (id, h) ∈ other) ∧ ∀ h, (id, h) ∉ my) ∧
+    (∀ g, id ∈ specK g .rm my other ↔ (∃ h, (id, h) ∈ my) ∧ ∀ h, (id, h) ∉ other) ∧
+    (id ∈ specK false .ch my other ↔ ∃ h h', (id, h) ∈ my ∧ (id, h') ∈ other ∧ h' ≠ h) ∧
+    (id ∈ specK true .ch my other ↔ ∃ h h', (id, h) ∈ my ∧ (id, h') ∈ other ∧ h' ≠ h ∧ ¬ h' > h) ∧
+    (id ∈ specK true .th my other ↔ ∃ h h', (id, h) ∈ my ∧ (id, h') ∈ other ∧ h' ≠ h ∧ h' > h) ∧
+    specK false .th my other = [] := by
+  refine ⟨fun g => ?_, fun g => ?_, ?_, ?_, ?_, rfl⟩
+  · cases g <;> exact mem_specNew
+  · cases g <;> exact mem_specRemoved
+  · simp only [specK, Bool.false_eq_true, if_false, specChanged]
+    rw [mem_specFilter hno]
+    simp [relNe]
+  · simp only [specK, if_true, specOurChanged]
+    rw [mem_specFilter hno]
+    simp [relOur]
+  · simp only [specK, if_true, specTheirChanged]
+    rw [mem_specFilter hno]
+    simp [relTheir]
+
 /-- every id the specification mentions has a 64-bit hash -/
 theorem spec_id_lt (hf : Nat → Nat) (a b : List Elem) (hwa : SlWf hf a) (hwb : SlWf hf b)
     (g : Bool) (k : Kind) (id : Nat) (h : id ∈ specK g k (pairs a) (pairs b)) : hf id < M := by
